@@ -27,6 +27,41 @@ def check(sc, rep):
     return None
 
 
+def during_alert(ctx, rng, n):
+    """a second, different header heard while the first alert is still open (no trailer was received, the 135 s timer is armed):
+    its StartOfMessage must be released within about 1.5 s of its last burst like any other, and an EndOfMessage that follows at once"""
+    import samegen, rxlib
+    cases = []
+    for j in range(n):
+        rate = rng.choice([8000, 11025, 22050])
+        A = samegen.gen_header(rng, nloc=rng.choice([1, 2])); B = samegen.gen_header(rng, nloc=rng.choice([1, 3]))
+        tx = rxlib.Tx(rng, H=A, rate=rate, impaired=False)
+        durA, durB = (16 + len(A)) * 8 / 520.83, (16 + len(B)) * 8 / 520.83
+        gap = 3.0 + rng.below(40) / 10.0
+        script = "S0.30,B%s,S1.00,B%s,S1.00,B%s,S%.2f,B%s,S1.00,B%s,S1.00,B%s,S4.00" % (
+            (rxlib.burst_hex(A),) * 3 + (gap,) + (rxlib.burst_hex(B),) * 3)
+        t_end_b3 = 0.30 + 3 * durA + 2.0 + gap + 3 * durB + 2.0
+        cases.append((tx, A, B, t_end_b3, tx.line(script=script)))
+    ok = 0
+    for (tx, A, B, t_end, line), r in zip(cases, rxlib.run_rx([c[4] for c in cases])):
+        if r.get("error"):
+            ctx.violation("harness-failure", r["error"][:200], {"input": line}); continue
+        if r["model"] != r["impl"]:
+            ctx.violation("correspondence", "receiver model replay differs from the implementation's events (second header during an alert)",
+                          {"input": line, "model": (r["model"] or "")[:2500], "impl": r["impl"][:2500]})
+        soms = [e for e in rxlib.parse_events(r["impl"]) if e["kind"] == "som"]
+        b = [e for e in soms if e["text"] == B]
+        if [e["text"] for e in soms] != [A, B]:
+            ctx.violation("property", "header B heard during the open alert of header A: %d StartOfMessage report(s) %s, expected A then B"
+                          % (len(soms), [e["text"][:16] for e in soms]), {"input": line, "events": r["impl"][:3000]})
+        elif b[0]["t"] / tx.rate > t_end + 1.6:
+            ctx.violation("property", "StartOfMessage of a header heard during an open alert reported %.2f s after the end of its last burst "
+                          "(bound about 1.5 s)" % (b[0]["t"] / tx.rate - t_end), {"input": line, "events": r["impl"][:3000]})
+        else:
+            ok += 1
+    return ok
+
+
 def run(ctx):
     quick = ctx.quick
     rng = ctx.rng.fork("C08")
@@ -36,6 +71,7 @@ def run(ctx):
            + txscen.follow_on(rng, 60 if quick else 600))
     mism, fam, nontriv, samples = base.run_family(ctx, "C08", check, scs, rng)
     cases, mism2, lat_som, lat_eom = base.receiver_level(ctx, rng, 42 if quick else 600, "C08")
+    ctx.coverage["second_header_during_alert_ok"] = during_alert(ctx, rng.fork("alert"), 4 if quick else 40)
     for (lat, tx) in lat_som:
         if lat > 1.5:
             ctx.violation("property", "StartOfMessage reported %.3f s after the end of its last burst on a quiet channel (bound about 1.5 s) [%s]"
